@@ -70,7 +70,8 @@ pub fn part() -> Box<dyn Part> {
                 prop_oneof![
                     6 => (0..table.len()).prop_map(move |i| table[i].to_string()),
                     1 => (0..t2.len()).prop_map(move |i| t2[i].to_uppercase()),
-                    1 => Just("queue".to_string()),
+                    // Rust identifiers of the variants and other near-names: unknown names like any other
+                    1 => prop_oneof![Just("queue"), Just("Queue"), Just("storedplaylist"), Just("StoredPlaylist"), Just("stored-playlist"), Just("neighbour"), Just("outputs"), Just("db"), Just("volume"), Just("playlists")].prop_map(str::to_string),
                     2 => "[a-zA-Z_]{1,16}",
                     1 => crate::props::simgen::wild_name(),
                 ],
